@@ -258,6 +258,11 @@ func (c *Cluster) servePools(n *Node, w http.ResponseWriter, r *http.Request) {
 			w.WriteHeader(http.StatusInternalServerError)
 		case "garbage":
 			_, _ = w.Write([]byte("<html>not json</html>"))
+		case "nofield": // a JSON document without the version field
+			_, _ = w.Write([]byte(`{"isEnterprise":true,"pools":[]}`))
+		case "unauthorized": // an error document with status 401
+			w.WriteHeader(http.StatusUnauthorized)
+			_, _ = w.Write([]byte(`{"message":"Unauthorized"}`))
 		default:
 			b, _ := json.Marshal(map[string]any{"implementationVersion": ver, "isEnterprise": true})
 			_, _ = w.Write(b)
